@@ -279,6 +279,17 @@ except (TypeError, ValueError, ArithmeticError) as e:
     print('RESULT raises %s' % type(e).__name__)
 '''
 
+def memcheck_errors(stderr):
+    """memcheck reports that do not come from the dynamic loader, as 'Invalid read of size 8 in f'"""
+    out = []
+    for b in re.split(r'\n==\d+== \n', stderr):
+        m = re.search(r'(Invalid (?:read|write) of size \d+|Process terminating with default action of signal \d+)', b)
+        if not m: continue
+        if 'dl-load.c' in b or '_dl_' in b or 'dl-open.c' in b: continue
+        where = re.search(r'(?:at|by) 0x[0-9A-F]+: (\w+) \(', b)
+        out.append('%s in %s' % (m.group(1), where.group(1) if where else '?'))
+    return out
+
 def replay_call(callspec, timeout=300):
     """runs the rendered call on the real build under valgrind; returns description if a memory error / crash is observed"""
     from vp import common
@@ -291,13 +302,8 @@ def replay_call(callspec, timeout=300):
         return None, 'valgrind timed out'
     # memcheck reports are split into blocks; blocks that come from the dynamic loader (ld.so reads a few bytes
     # past short strings while resolving rpaths - present in every run) are noise, not evidence
-    blocks = re.split(r'\n==\d+== \n', r.stderr)
-    for b in blocks:
-        m = re.search(r'(Invalid (?:read|write) of size \d+|Process terminating with default action of signal \d+)', b)
-        if not m: continue
-        if 'dl-load.c' in b or '_dl_' in b or 'dl-open.c' in b: continue
-        where = re.search(r'(?:at|by) 0x[0-9A-F]+: (\w+) \(', b)
-        return 'memcheck: %s in %s during %s' % (m.group(1), where.group(1) if where else '?', callspec['call']), None
+    errs = memcheck_errors(r.stderr)
+    if errs: return 'memcheck: %s during %s' % (errs[0], callspec['call']), None
     if r.returncode < 0 or r.returncode in (139, 134):
         return 'fatal signal (rc %d) in %s' % (r.returncode, callspec['call']), None
     return None, 'no memory error observed (%s)' % (r.stdout.strip()[-40:])
